@@ -62,7 +62,7 @@ OtherClass ==
      covered_nul_bytes |-> "valid", covered_not_utf8 |-> "valid", covered_long_line |-> "valid", covered_bad_expression |-> "valid",
      covered_unreadable |-> "valid", covered_vanishes |-> "valid", licenseref_not_utf8 |-> "valid", license_dir_is_file |-> "grey",
      template_bad_syntax |-> "grey", dot_license_not_utf8 |-> "valid",
-     dep5_and_nested_toml |-> "invalid",
+     dep5_and_nested_toml |-> "invalid", covered_terminator_run |-> "valid",
      licenses_same_identifier |-> "invalid",     \* LICENSES/MIT.txt next to LICENSES/MIT.md: a conflict of the project's set-up
      repository_test |-> "grey" ]     \* inputs of the repository's own tests: only the exit-status discipline is demanded
 
